@@ -13,6 +13,10 @@ CHECKS = {
    technique="TLA+ spec Loader.tla (Impl = transcription of remove_comments/process_object, Req = declarative requirement) model-checked with TLC over all documents in the bound; every TLC-emitted document replayed into the real loader (outcome, registry, object identity, process_object event sequence, values and update visibility)",
    text="TLC proves Impl = Req for every document over ids {a,b,c} up to nesting depth 3 (plus decorated documents with missing ids, ignored objects and comment keys), >31k documents in the quick tier; each of them is rendered with real classes in two flavours (Parameter/Cat/View/Transformed and Taxon/Taxa) and loaded as torchtree.main does, and the real outcome, registry, `is`-identity of every referenced object, event sequence and tensors before/after updates through the registry are compared with the spec.",
    note="Bound: 3 ids, depth<=3 (depth 4 / 4 ids in thorough), <=2 children per node; classes other than the six rendered ones are not enumerated (their from_json child order differs; C19 loads CLI documents); error kinds are not compared, only JSONParseError vs accept vs other exception."),
+ "C11": dict(level="model_checking", design="4/C11",
+   technique="TLA+ spec ModelGraph.tla instantiated with model graphs extracted from live torchtree objects (listener lists, handler tables probed on every flag valuation, probed reads and update roots); TLC explores all histories (finite flag state); state-graph transitions and counterexamples replayed on the real objects with flags compared to the spec state and every value compared with a freshly built copy",
+   text="For each zoo graph (parameter zoo with views/concatenations/transformed parameters/parametric transforms/variational objectives; CLI-built phylogenetic posteriors) TLC checks NoStale/NeverRaises over every reachable cache-flag state under all update operations and evaluations of each projection; transition-covering walks over the TLC state graph are replayed on the real graph: real flags must equal the spec state (bisimulation check) and every evaluated value must equal a freshly built copy holding the same raw parameter values.",
+   note="Graphs are the ones in the zoo (classes absent from them are not covered; listed in evidence samples); projections of <=4 ops x 7 evals per TLC run in the quick tier, walks cover a sample of the transitions (thorough: more walks, more zoos); variational objectives are evaluated under a fixed seed; proposals/rejections by samplers are exercised in C15."),
 }
 
 PENDING = {}
